@@ -205,6 +205,40 @@ func init() {
 						}
 					}
 					x.defBool("refresherStartsListeners", starts)
+					// the refresh loop: the outermost `for { … }` of the clause that sleeps. Its body, flattened in
+					// source order to the three things that matter: "sleep" (time.Sleep), "test" (a reference to
+					// shuttingDown), "listen" (net.Listen or proxy.ListenAndServeTCP).
+					var loop *ast.ForStmt
+					for _, st := range cc.Body {
+						ast.Inspect(st, func(k ast.Node) bool {
+							if fs, ok := k.(*ast.ForStmt); ok && loop == nil && fs.Cond == nil && len(x.calls(fs.Body, "time.Sleep")) > 0 {
+								loop = fs
+							}
+							return loop == nil
+						})
+					}
+					var ev []string
+					if loop == nil {
+						x.fail("startServers: tcp-dynamic refresh loop (for { … time.Sleep … }) not found")
+					} else {
+						ast.Inspect(loop.Body, func(k ast.Node) bool {
+							switch v := k.(type) {
+							case *ast.CallExpr:
+								switch x.src(v.Fun) {
+								case "time.Sleep":
+									ev = append(ev, "sleep")
+								case "net.Listen", "proxy.ListenAndServeTCP":
+									ev = append(ev, "listen")
+								}
+							case *ast.Ident:
+								if v.Name == "shuttingDown" {
+									ev = append(ev, "test")
+								}
+							}
+							return true
+						})
+					}
+					x.defStrList("refresherLoopEvents", ev)
 				}
 				return true
 			})
